@@ -420,7 +420,12 @@ def register(gen, T):
         }
         out.append("/-- syntactic facts about where compile() / build_pipeline() can return and where the Metal tool chain is named -/\n")
         out.append("structure StepFacts where\n" + "".join(f"  {k} : Bool\n" for k in sfacts) + "  deriving DecidableEq, Repr\n\n")
-        out.append("def stepFacts : StepFacts := { " + ", ".join(f"{k} := {'true' if v else 'false'}" for k, v in sfacts.items()) + " }\n")
+        out.append("def stepFacts : StepFacts := { " + ", ".join(f"{k} := {'true' if v else 'false'}" for k, v in sfacts.items()) + " }\n\n")
+        tools = inventory([("metal_invoker", r'\bmetal_invoker\b'), ("MetalCompiler", r'\bMetalCompiler\b(?!NotFound|Failed)')])
+        out.append("/-- every textual use of the Metal tool chain crate in non-test sources of the compiler crates: (file, enclosing fn, what, how many) -/\n")
+        out.append("def toolchainUses : List (String × String × String × Nat) := [\n")
+        out.append(",\n".join(f"  ({lean_str(a)}, {lean_str(b)}, {lean_str(c)}, {n})" for a, b, c, n in tools))
+        out.append("\n]\n")
         out.append(T.footer("TargetTables"))
         return "".join(out)
 
